@@ -5,7 +5,7 @@ CONSTANTS
   Gets = {"g1"}
   Cfgs <- CfgStoreMixed
   MaxEmit = 1
-  MaxSreq = 1
+  MaxSreq = 0
   MaxSa = 0
   Gates = FALSE
 VIEW MCView
